@@ -5,7 +5,7 @@ from ..ref import P, L, to32, le
 
 REQUIRED = ['dec:valid', 'dec:noncanon-s+p', 'dec:bit255', 'dec:negative-s', 'dec:reject-nonsquare', 'dec:reject-negt',
             'dec:accept', 'dec:reject', 'rep:coset', 'map:corner', 'map:random', 'batch:n=0', 'batch:n=1', 'batch:torsion',
-            'order', 'history', 'distinct', 'identity-reps', 'history:scalarmul', 'dec:group-trait']
+            'order', 'history', 'distinct', 'identity-reps', 'history:scalarmul', 'dec:group-trait', 'msm:large']
 
 
 def B(x):
@@ -278,6 +278,25 @@ def histories(ctx, n, steps):
     ctx.block()
 
 
+def large_msm(ctx):
+    """Ristretto multiscalar multiplication at the sizes where the Edwards code underneath changes algorithm and window
+    (190, 500, 800 terms and a seed-drawn size above each), with scalars whose radix-2^w recodings contain the extreme
+    digits (byte 0x80 after a byte below 0x80, all 0x7f / 0x80 / 0xff bytes)"""
+    rng = ctx.rng
+    pats = [int.from_bytes(bytes([b]) * 32, 'little') % L for b in (0x7f, 0x80, 0xff, 0x81)] + [128, 128 << 8, (128 << 8) | 0x7f, L - 1, 0, 1]
+    for n in (rng.choice([190, 191 + rng.randrange(300)]), rng.choice([800, 801 + rng.randrange(200)])):
+        base = [vals.Pt(rng.randrange(1, L), rng.choice([0, 2, 4, 6])) for _ in range(12)]
+        ps = [rng.choice(base) for _ in range(n)]
+        ks = [rng.choice(pats) if rng.random() < 0.5 else rng.randrange(L) for _ in range(n)]
+        e = sum(k * p.a for k, p in zip(ks, ps)) % L
+        aff = vals.Pt(e, 0).affine()
+        stoks, ptoks = lst([cs(k) for k in ks]), lst(['e' + p.tok() for p in ps])
+        ctx.add('rs.vmsm', stoks, ptoks, expect=pts.expect_rs(aff), cls=['msm:large', 'n=%d' % (190 if n < 500 else 800)])
+        ctx.add('rs.omsm', stoks, ptoks, expect=pts.expect_rs(aff), cls=['msm:large'])
+        if n <= 260:
+            ctx.add('rs.msm', stoks, ptoks, expect=pts.expect_rs(aff), cls=['msm:large'])
+
+
 def consts(ctx):
     be = ref.ristretto_encode(ref.B).hex()
     z = to32(0).hex()
@@ -294,6 +313,8 @@ def make(seed, size):
     identity_representatives(ctx)
     batch(ctx, max(4, size // 10))
     histories(ctx, max(2, size // 40), 40)
+    if seed % 4 == 0:        # tasks are numbered seed*1000 + i: every fourth task carries the large inputs
+        large_msm(ctx)
     consts(ctx)
     return ctx
 
